@@ -650,6 +650,7 @@ func init() {
 		obj := m.newObject(la, nil)
 		return slice{obj: obj, len: n, cap: n}
 	}
+	harnessAPI["vfsAbstractTouch"] = func(m *Machine, fr *frame, fn *ssa.Function, args []value) value { return nil }
 	harnessAPI["vfsReadAtCalls"] = func(m *Machine, fr *frame, fn *ssa.Function, args []value) value {
 		return mkConst(64, uint64(handleOf(fr, args[0]).readAts))
 	}
